@@ -81,7 +81,7 @@ def run_refactoring(rd):
 for rd in sorted(glob.glob('/verif/refactorings/*')):
     jobs.append((run_refactoring, rd))
 res = []
-with ThreadPoolExecutor(max_workers=6) as ex:
+with ThreadPoolExecutor(max_workers=10) as ex:
     for r in ex.map(lambda j: j[0](j[1]), jobs):
         res.append(r)
 bad = 0
